@@ -209,6 +209,8 @@ pub struct Sess {
     pub calls: u64,
     /// set once a call unwound: the object is in an unknown state
     pub poisoned: bool,
+    /// `Op::Break` is also legal in the idle state (C01)
+    pub allow_idle_break: bool,
 }
 
 impl Default for Sess {
@@ -223,6 +225,7 @@ impl Sess {
             it: Interpreter::default(),
             calls: 0,
             poisoned: false,
+            allow_idle_break: false,
         }
     }
 
@@ -231,6 +234,7 @@ impl Sess {
             it,
             calls: 0,
             poisoned: false,
+            allow_idle_break: false,
         }
     }
 
@@ -244,7 +248,8 @@ impl Sess {
             Op::Line(_) => s == St::Idle,
             Op::Tick | Op::Settle(_) => s == St::Running,
             Op::Reply(_) => s == St::Awaiting,
-            Op::Break => s == St::Running || s == St::Awaiting,
+            // (a break that arrives while idle — the CLI can deliver one — only in sessions that opted in)
+            Op::Break => s == St::Running || s == St::Awaiting || (self.allow_idle_break && s == St::Idle),
             Op::Replace => s == St::NewReq,
             Op::Seed(_) | Op::Flags(..) => true,
         }
